@@ -7,6 +7,19 @@ HERE = os.path.dirname(os.path.dirname(os.path.abspath(__file__)))
 
 # id -> (category, technique, text, note, design_ref)
 CHECKS = {
+    "C10": (
+        "exploration",
+        "bounded exhaustive enumeration of operation sequences (option subsets x command-line orders) through cli.main against a step-composition reference",
+        "Every subset of 13 single-end read-modifying options (cut +/-, NextSeq, -q, adapter, poly-A, --length, --trim-n, --length-tag, "
+        "--strip-suffix, prefix/suffix, --rename, --zero-cap; fixed parameters) and of 13 paired-end options (incl. -U, -Q, -A, -L) is "
+        "run through cutadapt.cli.main in several command-line orders (all permutations for subsets up to 3 (4) options). The corpus "
+        "holds, for every pair of reference steps, the shortest reads over {A,C,G,N} x quality levels on which the two steps do not "
+        "commute (searched exhaustively, counts in the evidence), so a swapped pair of stages changes some output. Oracle: composition "
+        "of the individually specified operations in the documented order with the documented R1/R2/both routing.",
+        "Trusted: reference steps of vf.refops (verified against the implementation one by one in C13/C14), each adapter's own match_to "
+        "(C01/C02). Fixed parameter values; FASTQ (quality base 64) and FASTA input.",
+        "DESIGN.md section 3, C10",
+    ),
     "C08": (
         "exploration",
         "bounded exhaustive enumeration of adapter sets x configurations x reads on the real index classes, judged against exact distance tables",
